@@ -428,6 +428,52 @@ def published_rule(d):
 SERDE_SNAKE_BODY = "{letmutsnake=String::new();for(i,ch)invariant.char_indices(){ifi>0&&ch.is_uppercase(){snake.push('_');}snake.push(ch.to_ascii_lowercase());}snake}"
 
 
+COSMOS_KINDS = {"Wasm": "wasm", "Bank": "bank", "Staking": "staking", "Distribution": "distribution", "Ibc": "ibc",
+                "Any": "any", "Gov": "gov", "Stargate": "stargate", "Custom": "custom"}
+INTO_MSG_TAIL = "Ok(SubMsg{msg,id:self.id,gas_limit:self.gas_limit,reply_on:self.reply_on,payload:self.payload,})}"
+INTO_RESPONSE_BODY = ("{letmessages:Vec<_>=self.messages.into_iter().map(|msg|msg.into_msg()).collect::<StdResult<_>>()?;"
+                      "letmutresp=Response::new().add_submessages(messages).add_events(self.events).add_attributes(self.attributes);"
+                      "resp.data=self.data;Ok(resp)}")
+
+
+def into_response_tables(d):
+    """which CosmosMsg kinds `IntoMsg::into_msg` converts, and that both functions have the field-by-field form the model mirrors"""
+    kinds = []
+    m = d.match("rt:into_response.rs", "SubMsg", "into_msg", r"^self\.msg$")
+    if m is None:
+        return kinds
+    saw_custom = False
+    for a in m["arms"]:
+        pat = a["pats"][0] if a["pats"] else ""
+        mm = re.fullmatch(r"CosmosMsg::(\w+)(?:\((\w+)\)|\{([\w,]+)\})", pat)
+        if pat == "_":
+            if "Unknownmessagevariant" not in a["body"]:
+                d.problems.append("into_msg: fallback arm is no longer an error")
+            continue
+        if not mm or mm.group(1) not in COSMOS_KINDS:
+            d.problems.append("into_msg: unclassified arm %s" % pat)
+            continue
+        name = mm.group(1)
+        if name == "Custom":
+            saw_custom = "Err(StdError::generic_err(\"CustomEmptymessageshouldnotbesent\",))?" in a["body"] or "CustomEmptymessageshouldnotbesent" in a["body"]
+            continue
+        binder = mm.group(2) or mm.group(3)
+        want = "CosmosMsg::%s(%s)" % (name, binder) if mm.group(2) else "CosmosMsg::%s{%s}" % (name, binder)
+        if a["body"] != want:
+            d.problems.append("into_msg: arm %s does not rebuild the same variant: %s" % (pat, a["body"][:80]))
+            continue
+        kinds.append(COSMOS_KINDS[name])
+    if not saw_custom:
+        d.problems.append("into_msg: the Custom arm is not the documented error")
+    fn = d.fn("rt:into_response.rs", "SubMsg", "into_msg")
+    if fn is not None and not fn["body"].endswith(INTO_MSG_TAIL):
+        d.problems.append("into_msg: the SubMsg is no longer rebuilt field by field in the recognised form")
+    fn = d.fn("rt:into_response.rs", "Response", "into_response")
+    if fn is not None and fn["body"] != INTO_RESPONSE_BODY:
+        d.problems.append("into_response: body no longer has the recognised form")
+    return kinds
+
+
 def kt(rows, val):
     return llist("(.%s, %s)" % (KINDS[k], val(v)) for k, v in rows)
 
@@ -463,9 +509,11 @@ def generate(dump_lines):
     ep = entry_point_logic(d)
     strip_forms(d)
     prule = published_rule(d)
+    conv = into_response_tables(d)
 
     o = []
     o.append("import Sylvia.Model.Kinds")
+    o.append("import Sylvia.Model.Runtime")
     o.append("/-! REGENERATED on every run by vlib/translate.py from /repo/sylvia-derive/src — do not edit. -/")
     o.append("namespace Extracted")
     o.append("open Sylvia")
@@ -492,6 +540,8 @@ def generate(dump_lines):
     o.append("def casingSites : List (Str × Str) := %s" % llist("(%s, %s)" % (lstr(a), lstr(b)) for a, b in casings))
     o.append("/-- 0: convert_case Snake of the variant name; 1: serde's rename rule for variants; 2: unrecognised -/")
     o.append("def publishedRule : Nat := %d" % prule)
+    o.append("/-- message kinds `IntoMsg::into_msg` has a converting arm for (all cargo features of the harness enabled) -/")
+    o.append("def convertible : List Sylvia.Runtime.MsgKind := %s" % llist("." + k for k in conv))
     o.append("def epDefaults : List Kind := %s" % llist("." + KINDS[k] for k in (ep.get("defaults") or []) if k in KINDS))
     o.append("")
     o.append("end Extracted")
@@ -503,7 +553,15 @@ def regenerate():
     os.makedirs(c.CACHE, exist_ok=True)
     outp = os.path.join(c.CACHE, "extract.jsonl")
     c.run_hook("extract", os.path.join(c.REPO, "sylvia-derive", "src"), outp)
-    text, d = generate(open(outp).read().split("\n"))
+    lines = open(outp).read().split("\n")
+    outp2 = os.path.join(c.CACHE, "extract_rt.jsonl")
+    c.run_hook("extract", os.path.join(c.REPO, "sylvia", "src"), outp2)
+    for l in open(outp2).read().split("\n"):
+        if l.strip():
+            j = json.loads(l)
+            j["file"] = "rt:" + j["file"]
+            lines.append(json.dumps(j))
+    text, d = generate(lines)
     c.write_if_changed(os.path.join(c.LEAN, "Sylvia", "Extracted", "Tables.lean"), text)
     return d.problems, d
 
